@@ -52,8 +52,12 @@ def mk_pool_op(name):
 def op_key(op) -> str:
     """Comparable description of an op object (encoded form)."""
     from hugr.hugr.node_port import Node
+    from hugr.ops import IncompleteOp
 
-    return json.dumps(json.loads(op._to_serial(Node(0)).model_dump_json()), sort_keys=True)
+    try:
+        return json.dumps(json.loads(op._to_serial(Node(0)).model_dump_json()), sort_keys=True)
+    except IncompleteOp:
+        return "incomplete:" + repr(op)
 
 
 class Model:
